@@ -171,7 +171,8 @@ def reset (d : DS) : DS := { cfg := d.cfg, bad := d.bad }
 def endLine (d : DS) : String :=
   if d.bad then "err:invalid-argument" else if d.dead then "err:exception" else
   let s := (stop d.m).1
-  s!"end ev={showList (showIdx d.cfg.ndx "-" s)} n={s.length}"
+  -- `stop` runs at node stop: nothing is left for the destruction of the storage (`late=0`)
+  s!"end ev={showList (showIdx d.cfg.ndx "-" s)} n={s.length} late={(stop (stop d.m).2).1.length}"
 
 def step (d : DS) (ws : List String) : DS × String :=
   match ws with
